@@ -82,6 +82,12 @@ pub enum Ev {
     /// decide() was called while this many clauses were allocated
     #[serde(rename = "dec")]
     Decide(u32),
+    /// propagate() was called for this level while this many clauses were allocated
+    #[serde(rename = "prop")]
+    Propagate(u32, u32),
+    /// propagate() returned: no conflict, or this clause as the conflict
+    #[serde(rename = "propres")]
+    PropagateResult(Option<u32>),
 }
 /// A unit of work of the encoder (None = root)
 #[derive(Clone, Debug, Serialize, Deserialize, PartialEq, Eq)]
@@ -106,6 +112,9 @@ pub struct Dump {
     /// clause ids registered as negative assertions, in registration order
     #[serde(default)]
     pub asserts: Vec<u32>,
+    /// the literals (variable, satisfying value) every clause watched when it was allocated
+    #[serde(default)]
+    pub init_watches: Vec<Option<[(V, bool); 2]>>,
 }
 
 #[derive(Clone, Debug, Serialize, Deserialize, PartialEq, Eq)]
@@ -301,6 +310,8 @@ pub fn dump_obs(d: &resolvo::verif::VerifDump, core: Vec<u32>) -> Dump {
             VerifEvent::EncodeResult(l) => Ev::EncodeResult(l.clone()),
             VerifEvent::AnalyzeUnsolvable(c) => Ev::AnalyzeUnsolvable(*c),
             VerifEvent::Decide(n) => Ev::Decide(*n),
+            VerifEvent::Propagate { level, clauses } => Ev::Propagate(*level, *clauses),
+            VerifEvent::PropagateResult(c) => Ev::PropagateResult(*c),
             VerifEvent::TaskDone(t) => {
                 use resolvo::verif::VerifTask as T;
                 let so = |x: u32| if x == u32::MAX { None } else { Some(x) };
@@ -315,7 +326,8 @@ pub fn dump_obs(d: &resolvo::verif::VerifDump, core: Vec<u32>) -> Dump {
         })
         .collect();
     let trail = d.trail.iter().map(|&(x, b, l, r)| (v(x), b, l, r)).collect();
-    Dump { clauses, events, trail, core, asserts: d.negative_assertions.clone() }
+    let init_watches = d.initial_watches.iter().map(|w| (*w).map(|p| p.map(|(x, b)| (v(x), b)))).collect();
+    Dump { clauses, events, trail, core, asserts: d.negative_assertions.clone(), init_watches }
 }
 
 #[derive(Clone, Debug)]
